@@ -59,7 +59,30 @@ def c_r_probe(ctx):
     return problems, fired
 
 
-CONTROLS = {"r_err": c_r_err, "r_probe": c_r_probe}
+def c_r_order(ctx):
+    import r_order as ro, q
+    from names import SET_PERMISSIONS, FCHOWN
+    fx = ctx.fx("F")
+    obs = ro.never_after(fx, {SET_PERMISSIONS}, {FCHOWN}, "R-ORDER", "ctl", crates=("xcpv_fixtures",), cfgname="F")
+    byfn = _by_fn(obs, "xcpv_fixtures::order::")
+    problems, fired = _judge(byfn, ["bad_chown_after_chmod"], ["good_chown_before_chmod"])
+    # gating polarity
+    CF = "xcpv_fixtures::order::Cfg"
+    for name, want_ok in (("good_chown_before_chmod", True), ("bad_gate_polarity", False), ("bad_ungated", False)):
+        f = fx.fn("xcpv_fixtures::order::" + name)
+        ps = ro.performers(fx, f, SET_PERMISSIONS)
+        if not ps:
+            problems.append("gating control %s: set_permissions not found" % name)
+            continue
+        ok, why = q.gated(f, ps[0][0], CF, "no_perms", False)
+        if ok != want_ok:
+            problems.append("gating control %s: got %s (%s)" % (name, ok, why))
+        elif not ok:
+            fired.append(name)
+    return problems, fired
+
+
+CONTROLS = {"r_err": c_r_err, "r_probe": c_r_probe, "r_order": c_r_order}
 
 
 def run(name, ctx):
